@@ -213,7 +213,7 @@ func (st *State) snapshotKey(k Value) Value {
 		}
 		id := st.allocN(n, nil, "map key")
 		st.copyMem(Ptr{id, st.e.k64(0)}, x.P, n)
-		st.objs[id].RO = true
+		st.newObj(id).RO = true
 		return Str{Ptr{id, st.e.k64(0)}, st.e.k64(n)}
 	case Iface:
 		return Iface{x.Dyn, st.snapshotKey(x.V)}
